@@ -1,13 +1,18 @@
 //! Lane `attrs` (properties C16, C14): the element / attribute read API on the REAL HtmlRewriter.
 //!
-//! case:  <ctx html|svg|math> <tag bytes hex> <cut | -> <query hex[,query hex]* | ->
+//! case:  <ctx html|svg|math> <tag bytes hex> <cut | -> [<edit[,edit]* | ->] <query hex[,query hex]* | ->
 //!        the document is `prefix ++ tag bytes` with prefix "" / "<svg>" / "<math>", encoding windows-1252
 //!        (every byte round-trips), written in two pieces when a cut position is given.
+//!        edit = s:<name hex>:<value hex> (set_attribute) | r:<name hex> (remove_attribute) | n:<name hex> (set_tag_name);
+//!        the edits are applied in order to EVERY element, in its handler, after the first round of reads; then
+//!        tag_name / tag_name_preserve_case / attributes() / the queries are read again.
 //! obs :  <res;..> # one record per element-handler invocation, `;`-separated:
 //!        E:<tag_name>:<tag_name_preserve_case>:<ns 0|1|2>:<self_closing>:<can_have_content>:<src s-e>:
 //!          <attr[+attr]* | ->:<query result[,..] | ->
 //!        attr  = <name()>~<name_preserve_case()>=<value()>@<name loc s-e>/<value loc s-e>   (N/N when None)
 //!        query = g<get_attribute: hex | - (empty) | N (None)>h<has_attribute 0|1>
+//!        with an edit script each record continues `:A:<edit result[,..]>:<tag_name>:<tag_name_preserve_case>:<attrs>:<queries>`
+//!          edit result = o | eE | eF<ch hex> (AttributeNameError) | tE | tI | tF<ch hex> (TagNameError)
 //!        strings are printed as the hex of their windows-1252 bytes; `B` when the underlying source bytes
 //!        begin with a byte-order mark (the read accessors sniff BOMs: `Bytes::as_string`, base/bytes.rs:114).
 //!
@@ -19,6 +24,8 @@
 //!   F9-integration-point-namespace  namespace_uri of an HTML integration point element (svg desc/title/
 //!                                   foreignObject, math mi/mo/mn/ms/mtext, annotation-xml with an HTML encoding)
 //!                                   is XHTML; html5ever: SVG/MathML
+//!   edit-read                       a read after the edit script differs from the list algebra (set: first match replaced
+//!                                   or appended; remove: every match gone; rename: new name) applied to the first reads
 //!   bom-sniffing-read-accessor      a name/value beginning with a BOM is decoded as UTF-8/UTF-16
 //!   foreign-root-inside-foreign-namespace  `<math><svg>` reports SVG (html5ever: MathML) and vice versa (pkg-simthm's finding)
 //!   anything else is a distinct tag (name, attrs, lookup, self-closing, content, namespace, location, count).
@@ -278,6 +285,45 @@ struct Seen {
     src: (usize, usize),
     attrs: Vec<SeenAttr>,
     queries: Vec<(Option<String>, bool)>,
+    after: Option<After>,
+}
+#[derive(Debug, Clone)]
+struct After {
+    results: Vec<String>,
+    name: String,
+    name_pc: String,
+    attrs: Vec<SeenAttr>,
+    queries: Vec<(Option<String>, bool)>,
+}
+#[derive(Debug, Clone)]
+enum Edit {
+    Set(Vec<u8>, Vec<u8>),
+    Rm(Vec<u8>),
+    Rename(Vec<u8>),
+}
+fn parse_edit(e: &str) -> Option<Edit> {
+    let p: Vec<&str> = e.split(':').collect();
+    match p.as_slice() {
+        ["s", n, v] => Some(Edit::Set(of_hex(n)?, of_hex(v)?)),
+        ["r", n] => Some(Edit::Rm(of_hex(n)?)),
+        ["n", n] => Some(Edit::Rename(of_hex(n)?)),
+        _ => None,
+    }
+}
+fn rejected_attr_name(lq: &[u8]) -> bool {
+    lq.is_empty() || lq.iter().any(|b| matches!(b, b' ' | b'\n' | b'\r' | b'\t' | 0x0C | b'/' | b'>' | b'='))
+}
+fn read_attrs(el: &lol_html::html_content::Element) -> Vec<SeenAttr> {
+    el.attributes()
+        .iter()
+        .map(|a| SeenAttr {
+            name: a.name(),
+            name_pc: a.name_preserve_case(),
+            value: a.value(),
+            name_loc: a.name_source_location().map(|l| (l.bytes().start, l.bytes().end)),
+            value_loc: a.value_source_location().map(|l| (l.bytes().start, l.bytes().end)),
+        })
+        .collect()
 }
 
 fn ns_num(uri: &str) -> u8 {
@@ -297,10 +343,20 @@ fn show(s: &str, src: Option<&[u8]>) -> String {
 }
 
 pub fn run(line: &str) -> String {
-    let f: Vec<&str> = line.split(' ').collect();
-    if f.len() != 4 {
-        return "bad-case".into();
-    }
+    let f0: Vec<&str> = line.split(' ').collect();
+    let (f, edits_s): (Vec<&str>, &str) = match f0.len() {
+        4 => (f0.clone(), "-"),
+        5 => (vec![f0[0], f0[1], f0[2], f0[4]], f0[3]),
+        _ => return "bad-case".into(),
+    };
+    let edits: Vec<Edit> = if edits_s == "-" {
+        vec![]
+    } else {
+        match edits_s.split(',').map(parse_edit).collect::<Option<Vec<_>>>() {
+            Some(e) => e,
+            None => return "bad-case".into(),
+        }
+    };
     let prefix: &[u8] = match f[0] {
         "html" => b"",
         "svg" => b"<svg>",
@@ -323,21 +379,12 @@ pub fn run(line: &str) -> String {
     let seen: Rc<RefCell<Vec<Seen>>> = Rc::new(RefCell::new(vec![]));
     let s1 = seen.clone();
     let qs = queries.clone();
+    let eds = edits.clone();
     let settings = Settings::new()
         .append_element_content_handler(element!("*", move |el| {
-            let attrs = el
-                .attributes()
-                .iter()
-                .map(|a| SeenAttr {
-                    name: a.name(),
-                    name_pc: a.name_preserve_case(),
-                    value: a.value(),
-                    name_loc: a.name_source_location().map(|l| (l.bytes().start, l.bytes().end)),
-                    value_loc: a.value_source_location().map(|l| (l.bytes().start, l.bytes().end)),
-                })
-                .collect();
+            let attrs = read_attrs(el);
             let loc = el.source_location().bytes();
-            s1.borrow_mut().push(Seen {
+            let mut seen_el = Seen {
                 name: el.tag_name(),
                 name_pc: el.tag_name_preserve_case(),
                 ns: ns_num(el.namespace_uri()),
@@ -346,7 +393,41 @@ pub fn run(line: &str) -> String {
                 src: (loc.start, loc.end),
                 attrs,
                 queries: qs.iter().map(|q| (el.get_attribute(&dec(q)), el.has_attribute(&dec(q)))).collect(),
-            });
+                after: None,
+            };
+            if !eds.is_empty() {
+                use lol_html::errors::{AttributeNameError as AE, TagNameError as TE};
+                let mut results = vec![];
+                for e in &eds {
+                    results.push(match e {
+                        Edit::Set(n, v) => match el.set_attribute(&dec(n), &dec(v)) {
+                            Ok(()) => "o".to_string(),
+                            Err(AE::Empty) => "eE".into(),
+                            Err(AE::ForbiddenCharacter(c)) => format!("eF{}", hex_or_dash(&enc(&c.to_string()))),
+                            Err(AE::UnencodableCharacter) => "eU".into(),
+                        },
+                        Edit::Rm(n) => {
+                            el.remove_attribute(&dec(n));
+                            "o".into()
+                        }
+                        Edit::Rename(n) => match el.set_tag_name(&dec(n)) {
+                            Ok(()) => "o".to_string(),
+                            Err(TE::Empty) => "tE".into(),
+                            Err(TE::InvalidFirstCharacter) => "tI".into(),
+                            Err(TE::ForbiddenCharacter(c)) => format!("tF{}", hex_or_dash(&enc(&c.to_string()))),
+                            Err(TE::UnencodableCharacter) => "tU".into(),
+                        },
+                    });
+                }
+                seen_el.after = Some(After {
+                    results,
+                    name: el.tag_name(),
+                    name_pc: el.tag_name_preserve_case(),
+                    attrs: read_attrs(el),
+                    queries: qs.iter().map(|q| (el.get_attribute(&dec(q)), el.has_attribute(&dec(q)))).collect(),
+                });
+            }
+            s1.borrow_mut().push(seen_el);
             Ok(())
         }))
         .with_encoding(AsciiCompatibleEncoding::new(WINDOWS_1252).unwrap());
@@ -423,8 +504,57 @@ pub fn run(line: &str) -> String {
                     .collect::<Vec<_>>()
                     .join(",")
             };
+            let after = match &e.after {
+                None => String::new(),
+                Some(a) => {
+                    let attrs = if a.attrs.is_empty() {
+                        "-".to_string()
+                    } else {
+                        a.attrs
+                            .iter()
+                            .map(|x| {
+                                let loc = match (x.name_loc, x.value_loc) {
+                                    (Some(n), Some(v)) => format!("{}-{}/{}-{}", n.0, n.1, v.0, v.1),
+                                    _ => "N/N".into(),
+                                };
+                                format!(
+                                    "{}~{}={}@{}",
+                                    show(&x.name, slice(x.name_loc)),
+                                    show(&x.name_pc, slice(x.name_loc)),
+                                    show(&x.value, slice(x.value_loc)),
+                                    loc
+                                )
+                            })
+                            .collect::<Vec<_>>()
+                            .join("+")
+                    };
+                    let qres = if a.queries.is_empty() {
+                        "-".to_string()
+                    } else {
+                        a.queries
+                            .iter()
+                            .map(|(g, h)| {
+                                let gs = match g {
+                                    None => "N".to_string(),
+                                    Some(s) => hex_or_dash(&enc(s)),
+                                };
+                                format!("g{}h{}", gs, if *h { 1 } else { 0 })
+                            })
+                            .collect::<Vec<_>>()
+                            .join(",")
+                    };
+                    format!(
+                        ":A:{}:{}:{}:{}:{}",
+                        a.results.join(","),
+                        hex_or_dash(&enc(&a.name)),
+                        hex_or_dash(&enc(&a.name_pc)),
+                        attrs,
+                        qres
+                    )
+                }
+            };
             format!(
-                "E:{}:{}:{}:{}:{}:{}-{}:{}:{}",
+                "E:{}:{}:{}:{}:{}:{}-{}:{}:{}{}",
                 hex_or_dash(&enc(&e.name)),
                 hex_or_dash(&enc(&e.name_pc)),
                 e.ns,
@@ -433,7 +563,8 @@ pub fn run(line: &str) -> String {
                 e.src.0,
                 e.src.1,
                 attrs,
-                qres
+                qres,
+                after
             )
         })
         .collect();
@@ -566,6 +697,91 @@ pub fn run(line: &str) -> String {
                     }
                 }
             }
+        }
+    }
+    // ---- reads after edits: list algebra on the FIRST reads of every element (independent of the source syntax) ----
+    for e in &seen {
+        let Some(a) = &e.after else { continue };
+        // reference state: (name as written, value, touched)
+        let mut name_pc: Vec<u8> = enc(&e.name_pc);
+        let mut list: Vec<(Vec<u8>, Vec<u8>, bool)> = e.attrs.iter().map(|x| (enc(&x.name_pc), enc(&x.value), false)).collect();
+        let mut want_res: Vec<String> = vec![];
+        let mut f8 = false;
+        for ed in &edits {
+            match ed {
+                Edit::Set(n, v) => {
+                    let ln = lower(n);
+                    if ln.is_empty() {
+                        want_res.push("eE".into());
+                    } else if let Some(c) = ln.iter().find(|b| matches!(b, b' ' | b'\n' | b'\r' | b'\t' | 0x0C | b'/' | b'>' | b'=')) {
+                        want_res.push(format!("eF{}", hex_or_dash(&[*c])));
+                    } else {
+                        want_res.push("o".into());
+                        match list.iter().position(|x| lower(&x.0) == ln) {
+                            Some(i) => {
+                                list[i].1 = v.clone();
+                                list[i].2 = true;
+                            }
+                            None => list.push((ln, v.clone(), true)),
+                        }
+                    }
+                }
+                Edit::Rm(n) => {
+                    let ln = lower(n);
+                    want_res.push("o".into());
+                    if rejected_attr_name(&ln) {
+                        // the documented behaviour would remove it; the validator of the setter refuses the name (F8)
+                        if list.iter().any(|x| lower(&x.0) == ln) {
+                            f8 = true;
+                        }
+                    } else {
+                        list.retain(|x| lower(&x.0) != ln);
+                    }
+                }
+                Edit::Rename(n) => {
+                    if n.is_empty() {
+                        want_res.push("tE".into());
+                    } else if !n[0].is_ascii_alphabetic() {
+                        want_res.push("tI".into());
+                    } else if let Some(c) = n.iter().find(|b| matches!(b, b' ' | b'\n' | b'\r' | b'\t' | 0x0C | b'/' | b'>')) {
+                        want_res.push(format!("tF{}", hex_or_dash(&[*c])));
+                    } else {
+                        want_res.push("o".into());
+                        name_pc = n.clone();
+                    }
+                }
+            }
+        }
+        let bom = list.iter().any(|x| has_bom(&x.0) || has_bom(&x.1));
+        if bom {
+            continue; // BOM-sniffing accessors: the first reads are not the bytes (separate finding)
+        }
+        if a.results != want_res {
+            flag("edit-read", format!("edit results {:?} expected {:?}", a.results, want_res));
+        }
+        if enc(&a.name_pc) != name_pc || enc(&a.name) != lower(&name_pc) {
+            flag("edit-read", format!("tag_name after edits {:?}/{:?} expected {:?}", a.name, a.name_pc, dec(&name_pc)));
+        }
+        let got: Vec<(Vec<u8>, Vec<u8>, Vec<u8>, bool)> =
+            a.attrs.iter().map(|x| (enc(&x.name), enc(&x.name_pc), enc(&x.value), x.name_loc.is_none() || x.value_loc.is_none())).collect();
+        let want: Vec<(Vec<u8>, Vec<u8>, Vec<u8>, bool)> = list.iter().map(|x| (lower(&x.0), x.0.clone(), x.1.clone(), x.2)).collect();
+        if got != want {
+            flag("edit-read", format!("attributes() after edits {:?} expected {:?}", got, want));
+        }
+        for (q, (g, h)) in queries.iter().zip(a.queries.iter()) {
+            let lq = lower(q);
+            let hit = list.iter().find(|x| lower(&x.0) == lq);
+            let want = hit.map(|x| dec(&x.1));
+            if *g != want || *h != want.is_some() {
+                if rejected_attr_name(&lq) && want.is_some() && g.is_none() && !*h {
+                    f8 = true;
+                } else {
+                    flag("edit-read", format!("after edits get_attribute({:?}) = {:?}/{} expected {:?}", dec(q), g, h, want));
+                }
+            }
+        }
+        if f8 {
+            flag("F8-lookup-rejected-name", "after edits: a name the setter's validator rejects is neither found nor removed although attributes() lists it".into());
         }
     }
     let mut out = obs;
